@@ -2,7 +2,8 @@
 
 Generated class definitions (0-6 fields, annotations from the C01 vocabulary, defaults / default_factory,
 init=False, compare=False, 0-2 levels of inheritance with decorated and undecorated subclasses, every
-type_safe / slots / order / kw_only choice, user __post_init__ that returns or raises, module-level or
+type_safe / slots / order / kw_only choice, user __post_init__ bodies (object.__setattr__(self, <field or new name>,
+<conforming / non-conforming value>), super().__post_init__(), return or raise), module-level or
 function-local definition), an initial heap of argument objects (explicit aliasing), and an operation
 script: constructor (keyword and positional), copy_with / deep_copy_with over replace-subsets,
 validate_types (also after mutating a list held by a field), setattr / delattr of every field and of a
@@ -175,6 +176,80 @@ def user_pi(case, c):
     return None
 
 
+def pi_norm(pi):
+    """the user hook of a class in one shape: None | {'body': [['set', name, value] | ['super']], 'raise': None | exception path}
+    (cases written before hooks had bodies say 'ret' / ['raise', path])"""
+    if pi is None:
+        return None
+    if pi == 'ret':
+        return {'body': [], 'raise': None}
+    if isinstance(pi, list):
+        return {'body': [], 'raise': pi[1]}
+    return pi
+
+
+def has_dict(case, c):
+    """instances of class c have a __dict__: some class of the MRO is not a slots=True dataclass"""
+    return any(k['deco'] is None or not opt_of(k, 'slots', False) for k in chain_of(case, c))
+
+
+def hook_names(case, c):
+    """names that a user-written __post_init__ anywhere along the MRO of class c assigns (Spec.hook_set_names)"""
+    out = set()
+    for k in chain_of(case, c):
+        pi = pi_norm(k['pi'])
+        if pi:
+            out |= {s[1] for s in pi['body'] if s[0] == 'set'}
+    return out
+
+
+def spec_hook_run(case, c):
+    """the user-written hooks by Python's rules alone (first class along the MRO that defines __post_init__; super() continues
+    with the rest of the MRO; a type-safe class below provides a __post_init__ that checks).
+    -> {'events': ids of the hooks entered, 'sets': names assigned, 'end': 'ok' | exception code, 'mid': a type-safe base's
+        __post_init__ was called and fields were assigned afterwards (its check saw intermediate values)}"""
+    fields = {f['name'] for f in merged_fields(case, c)}
+    dict_ok = has_dict(case, c)
+    out = {'events': [], 'end': 'ok', 'mid': False, 'sets': []}
+    checked = [False]
+
+    def run(chain):
+        for i, k in enumerate(chain):
+            pi = pi_norm(k['pi'])
+            if pi is None:
+                continue
+            out['events'].append(k['id'])
+            for st in pi['body']:
+                if st[0] == 'set':
+                    if checked[0]:
+                        out['mid'] = True
+                    if st[1] not in fields and not dict_ok:
+                        return 12                                     # AttributeError of object.__setattr__
+                    out['sets'].append(st[1])
+                else:
+                    if k['deco'] is not None and opt_of(k, 'slots', False):
+                        return 10                                     # zero-argument super() in a class dataclass() re-created
+                    rest = chain[i + 1:]
+                    if any(pi_norm(x['pi']) for x in rest):
+                        if any(x['deco'] is not None and opt_of(x, 'type_safe', False) for x in rest):
+                            checked[0] = True
+                        e = run(rest)
+                        if e is not None:
+                            return e
+                    elif any(x['deco'] is not None and opt_of(x, 'type_safe', False) for x in rest):
+                        checked[0] = True                             # the base's __post_init__ is the checking one
+                    else:
+                        return 12                                     # 'super' object has no attribute '__post_init__'
+            if pi['raise'] is not None:
+                return pi['raise'][1]
+            return None
+        return None
+    e = run(chain_of(case, c))
+    if e is not None:
+        out['end'] = e
+    return out
+
+
 def ts_levels(case, c):
     """number of new_post_init wrappers stacked on the __post_init__ attribute of class c"""
     n = 0
@@ -267,6 +342,35 @@ def gen_bad_value(rng, a, v):
     return rng.choice([['object'], ['str', [113]], ['int', 41], ['list', [['none']]]])
 
 
+def gen_hook(rng, case, c, L, p):
+    """a user-written __post_init__ for class c (the classes generated so far are its bases): journal entry, then up to three
+    statements - object.__setattr__(self, name, value) on a field known here (the value conforms to its annotation, or is a
+    corrupted one, or is an object of the initial heap) or on a new name, at most one super().__post_init__() - then return
+    or raise"""
+    if rng.random() >= p:
+        return None
+    known = [f for k in case['classes'] for f in k['fields']] + list(c['fields'])
+    body = []
+    r = rng.random()
+    n_sets = 0 if r < 0.4 else (1 if r < 0.8 else 2)
+    for _ in range(n_sets):
+        if known and rng.random() < 0.9:
+            f = rng.choice(known)
+            a = case['anns'][f['tok']]
+            if a == ['cls', ['user', [5]]]:
+                v = ['inst', [5], rng.randrange(30)]
+            else:
+                v = gen_value(rng, a)
+            if rng.random() < 0.3:
+                v = gen_bad_value(rng, a, v)
+            body.append(['set', f['name'], L.val(v)])
+        else:
+            body.append(['set', NEW_NAME, L.val(['int', 9])])
+    if rng.random() < (0.45 if c['base'] is not None else 0.08):
+        body.insert(rng.randrange(len(body) + 1), ['super'])
+    return {'body': body, 'raise': [0, 20 + c['id']] if rng.random() < 0.15 else None}
+
+
 def gen_case(rng, tier, stream):
     maxd = 2 if tier == 'quick' else 3
     scope = 'local' if rng.random() < 0.12 else 'module'
@@ -352,10 +456,9 @@ def gen_case(rng, tier, stream):
                     f['init'] = False
                 case['anns'].append(a)
                 c['fields'].append(f)
-            r = rng.random()
-            c['pi'] = 'ret' if r < 0.25 else (['raise', [0, 20 + lvl]] if r < 0.31 else None)
+            c['pi'] = gen_hook(rng, case, c, L, 0.34)
         else:
-            c['pi'] = 'ret' if rng.random() < 0.15 else None
+            c['pi'] = gen_hook(rng, case, c, L, 0.22)
         case['classes'].append(c)
     # CPython: an init=False field with a default VALUE is read from the class attribute by non-slots classes, and a
     # slots class deletes that attribute: mixing slots and non-slots classes over such a field loses its value.
@@ -448,9 +551,15 @@ def gen_case(rng, tier, stream):
         elif kwb:
             posb, kwb = [kwb[0][1]], kwb[1:]              # positional argument to a keyword-only __init__
         extra.append(['ctor', target, posb, kwb])
+    # a field that a hook assigns holds the hook's object in EVERY instance: mutating it in place through one instance would be
+    # seen by the operations of later branches on the real side (the model restarts every branch from the state after the prefix)
+    hooked_all = set()
+    for k in case['classes']:
+        hooked_all |= hook_names(case, k['id'])
     list_fields = [n for n, t in trees0.items() if t[0] == 'list' and n in dict(kw0)]
     list_fields += [f['name'] for f in init_fields if f['default'] == ['factory', 'list'] and f['name'] not in dict(kw0)
                     and not pos]
+    list_fields = [n for n in list_fields if n not in hooked_all]
     if list_fields and rng.random() < 0.75:
         n = rng.choice(list_fields)
         prefix.append(['validate', 0])
@@ -527,8 +636,9 @@ def gen_case(rng, tier, stream):
     # the branch (the model restarts every branch from the state after the prefix): these two branches come last.
     given0 = dict(kw0)
     lists0 = [f['name'] for f in init_fields
-              if (trees0.get(f['name'], [None])[0] == 'list' and f['name'] in given0)
-              or (f['default'] == ['factory', 'list'] and f['name'] not in given0 and not pos)]
+              if f['name'] not in hooked_all and
+              ((trees0.get(f['name'], [None])[0] == 'list' and f['name'] in given0)
+               or (f['default'] == ['factory', 'list'] and f['name'] not in given0 and not pos))]
     for meth in ('deep', 'copy'):
         if meth == 'deep' and len(init_fields) > 3:
             continue                                          # the model's deep copy relocates the heap once per field
@@ -582,8 +692,13 @@ def clayer(c):
     else:
         given = coq_list([f'({DPARAM[k]}, {coq_bool(bool(v))})' for k, v in c['deco']['given'].items()])
         deco = f'(Some (mkDeco {coq_bool(c["deco"]["shortcut"])} {given}))'
-    pi = 'None' if c['pi'] is None else ('(Some PIRet)' if c['pi'] == 'ret' else
-                                          f'(Some (PIRaise {coq_list([cnat(x) for x in c["pi"][1]])}))')
+    h = pi_norm(c['pi'])
+    if h is None:
+        pi = 'None'
+    else:
+        body = coq_list(['PSuper' if st[0] == 'super' else f'(PSet {cnat(st[1])} {cval(st[2])})' for st in h['body']])
+        rs = 'None' if h['raise'] is None else f'(Some {coq_list([cnat(x) for x in h["raise"]])})'
+        pi = f'(Some (mkPib {body} {rs}))'
     fields = coq_list([cfield(f) for f in c['fields']]) if c['deco'] is not None else '[]'
     return f'(mkLayer {cnat(c["id"])} {deco} {fields} {pi})'
 
@@ -714,32 +829,48 @@ def judge(case, w, model):
             dis.append(dict(rec, what='observation differs'))
         # ---- C11: clauses judged by the worker on the real objects
         for v in viol:
+            if 'returns an instance (no TypeError / ValueError)' in (v.get('clause') or '') and cls is not None \
+                    and spec_hook_run(case, cls)['end'] != 'ok':
+                continue                   # the refusal is the user-written __post_init__'s own exception
             v11.append(dict(rec, clause=v.get('clause'), detail=v, cls=cls))
         # ---- C10: implementation outcome against the specification's verdicts
         if cls is None or verd is None or op[0] not in ('ctor', 'copy', 'deep', 'validate'):
             continue
-        if not verd or any(x in (96, 97, 99) for x in verd):
-            continue                       # no candidate object (binding error) or a field without value
+        if not verd or any(x in (96, 99) for x in verd):
+            continue                       # no candidate object (binding error)
         code = i_obs[0]
         if code == 98:
             continue                       # the operation had no receiver on the implementation side
         jr = journal_of(i_obs)
+        # a field without value (97: init=False, no default, no hook assigns it) does not conform
+        want = 'accept' if all(x == 1 for x in verd) else ('reject' if any(x in (2, 97) for x in verd) else 'any')
         if op[0] == 'validate':
-            want = 'accept' if all(x == 1 for x in verd) else ('reject' if any(x == 2 for x in verd) else 'any')
             if (want == 'accept' and code != 0) or (want == 'reject' and code != 1):
                 v10.append(dict(rec, clause='validate_types raises iff some field does not conform', verdicts=verd, outcome=code, cls=cls))
             continue
         if not spec_typesafe(case, cls):
             continue
+        hk = spec_hook_run(case, cls)
         up = user_pi(case, cls)
         if up is not None:
-            if not jr or jr[0] != 100 + up['id'] or any(100 <= x < 1000 for x in jr[1:]):
-                v10.append(dict(rec, clause='the user-defined __post_init__ runs exactly once, before the check', journal=jr, cls=cls))
-            if up['pi'] != 'ret':
-                if code != up['pi'][1][1] or len(jr) != 1:
-                    v10.append(dict(rec, clause='an exception of the user __post_init__ leaves, nothing is checked', journal=jr, outcome=code, cls=cls))
-                continue
-        want = 'accept' if all(x == 1 for x in verd) else ('reject' if any(x == 2 for x in verd) else 'any')
+            epi = [x - 100 for x in jr if 100 <= x < 1000]
+            first_check = next((i for i, x in enumerate(jr) if x >= 1000), len(jr))
+            ok = (bool(jr) and jr[0] == 100 + up['id'] and epi == hk['events'][:len(epi)]
+                  and (code != 0 or epi == hk['events'])
+                  and all(x >= 1000 for x in jr[first_check:]))
+            if not ok:
+                v10.append(dict(rec, clause='the user-defined __post_init__ runs exactly once, before the check', journal=jr,
+                                expected_hooks=hk['events'], cls=cls))
+        if hk['end'] != 'ok':
+            # the user-written part raises: no instance; for a hook without statements it is its own exception and nothing is checked
+            h = pi_norm(up['pi']) if up is not None else None
+            simple = h is not None and not h['body'] and h['raise'] is not None
+            if code == 0 or (simple and (code != hk['end'] or len(jr) != 1)):
+                v10.append(dict(rec, clause='an exception of the user __post_init__ leaves, nothing is checked', journal=jr, outcome=code,
+                                cls=cls, hook_end=hk['end']))
+            continue
+        if want == 'accept' and hk['mid']:
+            want = 'any'                   # a type-safe base's __post_init__ was called midway: its check saw the values of that moment
         if (want == 'accept' and code != 0) or (want == 'reject' and code != 1):
             v10.append(dict(rec, clause='an instance is obtained iff every field value conforms (else PedanticTypeCheckException)',
                             verdicts=verd, outcome=code, cls=cls, path=op[0]))
@@ -781,11 +912,45 @@ def override_matcher(finding, payload):
     case, v = payload['case'], payload.get('violation', {})
     cls = v.get('cls')
     return (cls is not None and pi_below_type_safe_layer(case, cls) and v.get('outcome') == 0
-            and v.get('path') in ('ctor', 'copy', 'deep') and any(x == 2 for x in (v.get('verdicts') or [])))
+            and v.get('path') in ('ctor', 'copy', 'deep') and any(x in (2, 97) for x in (v.get('verdicts') or [])))
+
+
+def novalue_matcher(finding, payload):
+    """C10-initfalse-nodefault: a field that holds no value when the check runs (init=False, no default, no __post_init__ assigns
+    it): validate_types' own getattr raises AttributeError where the property asks for PedanticTypeCheckException"""
+    if finding.get('matcher', {}).get('id') != 'init_false_field_without_value':
+        return False
+    case, v = payload['case'], payload.get('violation', {})
+    cls = v.get('cls')
+    if cls is None or v.get('outcome') != 12 or 97 not in (v.get('verdicts') or []):
+        return False
+    assigned = spec_hook_run(case, cls)['sets']          # by the hooks that run for this class (Python's MRO / super() rules)
+    unset = [f for f in merged_fields(case, cls) if not f['init'] and f['default'] is None and f['name'] not in assigned]
+    return bool(unset) and (v.get('path') in ('ctor', 'copy', 'deep') or v.get('op', [None])[0] == 'validate')
 
 
 def c10_matcher(finding, payload):
-    return ctx_matcher(finding, payload) or override_matcher(finding, payload)
+    return ctx_matcher(finding, payload) or override_matcher(finding, payload) or novalue_matcher(finding, payload)
+
+
+def unfrozen_matcher(finding, payload):
+    """C11-subclass-unfrozen: an instance of an UNDECORATED subclass of a @frozen_dataclass class (no slots=True class in the
+    hierarchy) accepts assignment / deletion of a name that is not a field"""
+    if finding.get('matcher', {}).get('id') != 'undecorated_subclass_new_attribute':
+        return False
+    case, v = payload['case'], payload.get('violation', {})
+    d, cls = v.get('detail', {}), v.get('cls')
+    if cls is None or d.get('outcome') != 0 or not str(d.get('clause', '')).endswith('on an instance is rejected and changes nothing'):
+        return False
+    ch = chain_of(case, cls)
+    op = v.get('op') or [None, None, None]
+    return (ch[0]['deco'] is None and any(k['deco'] is not None for k in ch)
+            and not any(k['deco'] is not None and opt_of(k, 'slots', False) for k in ch)
+            and op[0] in ('setattr', 'delattr') and op[2] not in [f['name'] for f in merged_fields(case, cls)])
+
+
+def c11_matcher(finding, payload):
+    return initfalse_matcher(finding, payload) or unfrozen_matcher(finding, payload)
 
 
 def initfalse_matcher(finding, payload):
@@ -835,7 +1000,7 @@ def run(pid, tier, seed, replay=None):
     ck = Check(pid, tier, seed, UNITS, MODEL, f'Props/{pid}.v')
     ck.prepare()
     mine = (lambda v10, v11: v10) if pid == 'C10' else (lambda v10, v11: v11)
-    matcher_fn = c10_matcher if pid == 'C10' else initfalse_matcher
+    matcher_fn = c10_matcher if pid == 'C10' else c11_matcher
 
     def still_fails(f):
         c = f['witness']
@@ -854,7 +1019,8 @@ def run(pid, tier, seed, replay=None):
             stream = 'valid' if r < 0.45 else ('near-miss' if r < 0.9 else 'malformed')
             cases.append(gen_case(ck.rng, tier, stream))
     impl, model = evaluate(ck, cases)
-    hist = {'streams': {}, 'fields': {}, 'depth': {}, 'scope': {}, 'ops': {}, 'outcomes': {}, 'options': {}, 'decorated_layers': {}}
+    hist = {'streams': {}, 'fields': {}, 'depth': {}, 'scope': {}, 'ops': {}, 'outcomes': {}, 'options': {}, 'decorated_layers': {},
+            'hooks': {}, 'hook_end': {}}
 
     def bump(d, k):
         d[str(k)] = d.get(str(k), 0) + 1
@@ -865,6 +1031,20 @@ def run(pid, tier, seed, replay=None):
         bump(hist['streams'], c.get('stream')); bump(hist['fields'], nf); bump(hist['depth'], len(c['classes']) - 1)
         bump(hist['scope'], c['scope'])
         bump(hist['decorated_layers'], sum(1 for k in c['classes'] if k['deco'] is not None))
+        for k in c['classes']:
+            h = pi_norm(k['pi'])
+            if h is not None:
+                bump(hist['hooks'], 'classes with __post_init__')
+                if any(st[0] == 'set' for st in h['body']):
+                    bump(hist['hooks'], 'assigns attributes')
+                if any(st[0] == 'super' for st in h['body']):
+                    bump(hist['hooks'], 'calls super')
+                if h['raise'] is not None:
+                    bump(hist['hooks'], 'raises')
+                if k['deco'] is None:
+                    bump(hist['hooks'], 'in an undecorated class')
+        hk = spec_hook_run(c, c['target'])
+        bump(hist['hook_end'], hk['end'] if not hk['mid'] else 'check-midway')
         for k in c['classes']:
             if k['deco'] is not None:
                 for o in OPTS:
